@@ -367,8 +367,10 @@ def _run_case(case):
             return e2e.record(case, [], tags=["fam:problem", "skip"],
                               skipped=True)
         bt = rec.built
-        xl = np.where(np.isfinite(pb.bounds.xl), pb.bounds.xl, -3.0)
-        xu = np.where(np.isfinite(pb.bounds.xu), pb.bounds.xu, 3.0)
+        xl = np.where(np.isfinite(pb.bounds.xl), pb.bounds.xl,
+                      np.where(np.isfinite(pb.bounds.xu),
+                               pb.bounds.xu - 3.0, -3.0))
+        xu = np.where(np.isfinite(pb.bounds.xu), pb.bounds.xu, xl + 3.0)
         worst = 0.0
         for _ in range(8):
             x = xl + rng.random(pb.n) * (xu - xl)
